@@ -172,7 +172,7 @@ impl VState {
 	pub fn lock_x(&self) {
 		self.log(OP_LOCK_X);
 		// a thread must never wait for a lock it holds itself (C01, last sentence)
-		assert!(self.mine.get() == NONE, "C01_no_self_wait: blocking exclusive request on a lock this thread holds");
+		assert!(self.mine.get() == NONE, "U_no_self_wait: blocking exclusive request on a lock this thread holds");
 		self.note_blocking();
 		// the environment eventually releases (lock_api liveness, assumed)
 		self.other.set(NONE);
@@ -198,7 +198,7 @@ impl VState {
 	pub fn unlock_x(&self) {
 		self.log(OP_UNLOCK_X);
 		// C05: never release a lock the calling thread does not hold, and only in its mode
-		assert!(self.mine.get() == EXCL, "C05_release_matches_hold: exclusive release of a lock not held exclusively by this thread");
+		assert!(self.mine.get() == EXCL, "U_release_matches_hold: exclusive release of a lock not held exclusively by this thread");
 		self.mine.set(NONE);
 		self.rel_x.set(self.rel_x.get() + 1);
 		w().held -= 1;
@@ -206,7 +206,7 @@ impl VState {
 
 	pub fn lock_s(&self) {
 		self.log(OP_LOCK_S);
-		assert!(self.mine.get() == NONE, "C01_no_self_wait: blocking shared request on a lock this thread holds");
+		assert!(self.mine.get() == NONE, "U_no_self_wait: blocking shared request on a lock this thread holds");
 		self.note_blocking();
 		if self.other.get() == EXCL {
 			self.other.set(NONE);
@@ -234,7 +234,7 @@ impl VState {
 	pub fn unlock_s(&self) {
 		self.log(OP_UNLOCK_S);
 		let m = self.mine.get();
-		assert!(m != NONE && m != EXCL, "C05_release_matches_hold: shared release of a lock not held shared by this thread");
+		assert!(m != NONE && m != EXCL, "U_release_matches_hold: shared release of a lock not held shared by this thread");
 		self.mine.set(m - 1);
 		self.rel_s.set(self.rel_s.get() + 1);
 		w().held -= 1;
